@@ -1,36 +1,4 @@
-# Texts for MANIFEST.json, per property.
-HOOK_COMMITS = ["4e61baf"]
+# Texts for MANIFEST.json that are not per property (per-property texts live in vlib/props/*.py under "meta").
+HOOK_COMMITS = ["4e61baf", "39445bc", "4a3f00d", "f8ba652", "f66a3c2", "c597d22"]
 PENDING_REASON = "not claimed yet: its model and check are still being built (DESIGN.md §8 build order); the technique applies"
 NOT_APPLICABLE = {}
-
-_NOTE = ("Trusted: Coq 8.16.1 kernel; no axioms (Print Assumptions checked every run); extraction with ExtrOcamlBasic only, "
-         "cross-checked by vm_compute on a sample of every run; the Go harness and Go 1.26.8 runtime/synctest. "
-         "The theorems are about the hand-written model; the tie to /repo is the differential correspondence run on every check. ")
-
-META = {
-    "C01": dict(
-        text="Coq theorems over ALL event lists of gate-level interleaving models of csync.Mutex and csync.RWMutex (any number of calls, every "
-             "interleaving of critical sections, cancellations, wake-ups, release calls): counting invariant => at most one API-level write holder and then no "
-             "read holder; release idempotent; failed TryLock / cancelled Lock inert. Models tied to the code by scheduled differential correspondence: "
-             "the harness drives the real locks one critical section at a time (synctest) and the extracted model must produce the same status vectors; "
-             "exclusion monitors are evaluated on the implementation's observations.",
-        note=_NOTE + "Gate placement and the atomicity of a Broadcast critical section are trusted (C13 argues the lock discipline). Locker wrappers are exercised by the harness only through Lock/release.",
-        technique="Coq inductive invariant over an interleaving model + schedule-controlled differential correspondence against the Go code",
-    ),
-    "C02": dict(
-        text="Coq theorems over all event lists of the same models: no-lost-wake-up invariant (a caller blocked on an open channel is not grantable), hence at every "
-             "quiescent state no grantable waiter is blocked and no cancelled caller is blocked; counters have no residue from cancelled/failed calls; a read grant "
-             "happens only when no writer is registered waiting (writer preference). The pinned code's violation (D1) is a _refuted theorem and a corpus history. "
-             "Correspondence as C01, with quiescence monitors on the implementation's observations.",
-        note=_NOTE + "Liveness is stated as quiescence safety; termination of internal steps is not yet a theorem for this model.",
-        technique="Coq inductive invariant (no lost wake-up) over an interleaving model + schedule-controlled differential correspondence",
-    ),
-    "C19": dict(
-        text="Coq theorems over all byte lists / string lists / chunk-size lists for executable models of PadInPlace (both capacity branches), "
-             "UnpadInPlace, Prefix, TrimPrefix and randReader.Read, plus the theorem that the boolean monitors accept every model output; "
-             "model tied to the code by differential correspondence on every run (boundary-heavy generated inputs, extracted model vs. real code, "
-             "monitors evaluated on the implementation's outputs).",
-        note=_NOTE + "SHA-256 and ChaCha8 are parameters of the model (exercised by seed-split cases, not verified).",
-        technique="Coq proof (list induction, loop invariants) about an executable Gallina model + differential correspondence against the Go code",
-    ),
-}
